@@ -106,6 +106,19 @@ class Spec:
                 if r:
                     return v + [(c + "-probe", "probe (poweroff cycle of %s) %r: %s" % (self.defs[i].name, ev, m))
                                 for c, m in r]
+        # a burst sent to a transceiver that is off must not be remembered: power it on afterwards and tick
+        idle = [i for i in range(n) if not W.model.trx[i].running]
+        for i in idle[:2]:
+            script = [("burst", i, 2), ("tune", i), ("ctrl", i, "POWERON"), ("tick",), ("tick",), ("tick",), ("tick",)]
+            for ev in script:
+                if ev[0] == "burst" and W.model.fn is None:
+                    r = W.burst(i, 2, tn=i % 8)
+                else:
+                    r = self.step(W, ev)
+                W.nprobe += 1
+                if r:
+                    return v + [(c + "-probe", "probe (burst while %s is off, then POWERON) %r: %s" % (self.defs[i].name, ev, m))
+                                for c, m in r]
         return v
 
 
